@@ -7,7 +7,9 @@ def run(ctx):
     pipecommon.run_family(
         ctx, 'C27',
         mc=['MC_inval.cfg', 'MC_dedicated.cfg'],
-        negs=[('MC_neg_nolossnil.cfg', 'LossNilOnce'), ('MC_neg_skipinval.cfg', 'InvalidationLog'), ('MC_neg_notrackingoff.cfg', 'TrackingOffOnRelease')],
+        negs=[('MC_neg_nolossnil.cfg', 'LossNilOnce'), ('MC_neg_skipinval.cfg', 'InvalidationLog'), ('MC_neg_notrackingoff.cfg', 'TrackingOffOnRelease'),
+              # the nil at connection loss does not depend on the client-side cache (option callback / session hook)
+              ('MC_neg_lossnilcache.cfg', 'LossNilOnce'), ('MC_neg_lossnilcache_hook.cfg', 'LossNilOnce', 'th')],
         gens=[('Geninv_q.cfg', 50, 400)],
         modes=['inval', 'dedicated'],
         neg_traces=['drop-loss-nil', 'tracking-left-on', 'duplicate-invalidation'],
